@@ -2,6 +2,7 @@
 //!  conv <k1> <k2> <operand of k1>      : x<k1> := …; y<k2> := x
 //!  reshape <k1> <operand> <r> <c> <k2> : y<[k2]:r,c> := x
 //!  toset <k> <M operand>               : y<{k}> := x
+//!  toset2 <k1> <k2> <M operand of k1>  : y<{k2}> := x                (elements converted, then made distinct)
 //!  convopt <k1> <k2> <S operand of k1> : x<k1> := …; y<k2?> := x   (an option kind converts as its base kind)
 //!  optempty <k2>                       : y<k2?> := _                (the empty option)
 use crate::common::*;
@@ -19,6 +20,7 @@ pub fn source(case: &str) -> String {
     }
     "reshape" => format!("{}y<[{}]:{},{}> := x", operand_def("x", f[1], f[2], false), f[5], f[3], f[4]),
     "toset" => format!("{}y<{{{}}}> := x", operand_def("x", f[1], f[2], false), f[1]),
+    "toset2" => format!("{}y<{{{}}}> := x", operand_def("x", f[1], f[3], false), f[2]),
     "convopt" => format!("{}y<{}?> := x", operand_def("x", f[1], f[3], false), f[2]),
     "optempty" => format!("y<{}?> := _", f[1]),
     _ => "bad-proto".into(),
@@ -118,6 +120,17 @@ pub fn generate(seed: u64, thorough: bool, sink: &mut Sink) -> Vec<String> {
     cases.push(format!("toset\t{}\tM|{}|{}|{}", k, r, c, els.join(" ")));
     sink.hit("toset");
     let _ = it;
+  }
+  // matrix to set of another element kind: every element converted by the scalar rule (fractions truncated
+  // toward zero, out-of-range values clamped), then made distinct — values chosen so that conversions collide
+  let num_kinds = ["f64", "f32", "u8", "i8", "i16", "u16", "i32", "u64", "i64"];
+  for _ in 0..(if thorough { 3000 } else { 300 }) {
+    let k1 = *rng.pick(&num_kinds); let k2 = *rng.pick(&num_kinds);
+    let (r, c) = *rng.pick(&[(1usize, 4usize), (4, 1), (2, 3), (1, 2)]);
+    let pool: Vec<String> = (0..3).map(|_| gen_value(k1, k2, &mut rng)).collect();
+    let els: Vec<String> = (0..r * c).map(|_| rng.pick(&pool).clone()).collect();
+    cases.push(format!("toset2\t{}\t{}\tM|{}|{}|{}", k1, k2, r, c, els.join(" ")));
+    sink.hit("toset:other-kind");
   }
   sink.sample(cases[0].clone()); sink.sample(cases[cases.len() - 1].clone());
   cases
